@@ -326,6 +326,8 @@ theorem litListLoop_fuel (fo : FloatOracle) :
         generalize (if (e == 0) = true then t else e) = e2
         split
         · exact FP.err
+        split
+        · exact FP.err
         · have a3 := adv_skip d hdi
           generalize skip d = d3 at a3 ⊢
           split
@@ -401,7 +403,11 @@ theorem FWV_step (fo : FloatOracle) (f : Nat) (hCL : FCL fo f) (hWL : FWL fo f) 
         obtain ⟨t, v⟩ := q
         cases v with
         | none => exact FP.err
-        | some v => exact FP.ok (a1.trans a2) (by have := (a1.trans a2).2.1; omega)
+        | some v =>
+          dsimp only
+          split
+          · exact FP.err
+          · exact FP.ok (a1.trans a2) (by have := (a1.trans a2).2.1; omega)
   | beginCompound =>
     dsimp only
     have hp := hreal (by rw [hop]; simp) (by rw [hop]; simp)
@@ -468,6 +474,8 @@ theorem FCL_step (fo : FloatOracle) (f : Nat) (hWV : FWV fo f) (hCL : FCL fo f) 
               · rw [if_neg hq] at hX; cases hX
             | ok tn =>
               dsimp only
+              split
+              · exact FP.err
               have a3 := adv_skip d2 a2.2.2
               generalize skip d2 = d3 at a3 ⊢
               have a13 := a1.trans (a2.trans a3)
